@@ -179,6 +179,16 @@ int main(int argc, char **argv) {
 		}
 		else if (!strcmp(cmd, "rxnowait")) { int n = parse_hex(a[0], bytes, sizeof bytes); rx_push(bytes, n); }
 		else if (!strcmp(cmd, "quiesce")) { if (rx_quiesce(20000)) outf("rx-timeout\n"); }
+		else if (!strcmp(cmd, "idle")) {
+			/* idle <n> : wait until the receiver thread has polled the read callback n more times without getting a byte */
+			unsigned long want = (unsigned long)atol(a[0]), base;
+			pthread_mutex_lock(&rx_mx); base = empty_polls; pthread_mutex_unlock(&rx_mx);
+			for (int i = 0; i < 200000; i++) {
+				pthread_mutex_lock(&rx_mx); unsigned long now = empty_polls; pthread_mutex_unlock(&rx_mx);
+				if (now - base >= want) break;
+				struct timespec ts = {0, 100000}; nanosleep(&ts, NULL);
+			}
+		}
 		else if (!strcmp(cmd, "handle")) {
 			/* handle <msg-hex> : bidib_node_state_update + bidib_handle_received_message as the receiver does */
 			int n = parse_hex(a[0], bytes, sizeof bytes); uint8_t *m = malloc((size_t)n); memcpy(m, bytes, (size_t)n);
